@@ -53,6 +53,14 @@ def encode(method, data):
     if method == "lzma":
         raw = lzma.compress(data, format=lzma.FORMAT_ALONE)
         return b"\x03\x01\x01", raw[:5], raw[13:]
+    if method.startswith("lzma:"):
+        # LZMA1 with tuned literal-context / literal-position / position bits (7z a -m0=lzma:lc=4:lp=0:pb=0 ...): the
+        # first property byte is (pb * 5 + lp) * 9 + lc, not the default 0x5D; dictionary sizes other than the preset's
+        opts = dict(kv.split("=") for kv in method.split(":")[1:])
+        flt = {"id": lzma.FILTER_LZMA1, "preset": 0}
+        flt.update({k: int(v) for k, v in opts.items()})
+        raw = lzma.compress(data, format=lzma.FORMAT_ALONE, filters=[flt])
+        return b"\x03\x01\x01", raw[:5], raw[13:]
     if method == "lzma2" or method.startswith("lzma2:"):
         # LZMA2 property byte p: dictionary size (2 | (p & 1)) << (p // 2 + 11)
         p = int(method.split(":")[1]) if ":" in method else 16
@@ -129,6 +137,52 @@ def write_zip(entries, comp):
     return buf.getvalue()
 
 
+def write_zip_gp_bits(entries, comp, bits, level=None):
+    """a ZIP as Info-ZIP / 7-Zip write it at a non-default level: general purpose bits 1-2 of every non-directory member
+    carry the (purely informational, APPNOTE 4.4.4) compression option -- 01 maximum, 10 fast, 11 super fast; bit 11 =
+    UTF-8 names.  The flags are patched into the local and the central header of the archive zipfile wrote."""
+    buf = io.BytesIO()
+    with zipfile.ZipFile(buf, "w", comp, compresslevel=level) as z:
+        for n, d in entries:
+            z.writestr(n + "/" if d is None else n, b"" if d is None else d)
+    raw = bytearray(buf.getvalue())
+    with zipfile.ZipFile(io.BytesIO(bytes(raw))) as z:
+        infos = [(i.header_offset, i.is_dir()) for i in z.infolist()]
+        cd = z.start_dir
+    for off, isdir in infos:
+        assert raw[off:off + 4] == b"PK\x03\x04"
+        if not isdir:
+            raw[off + 6] |= bits & 0xFF
+    p = cd
+    for off, isdir in infos:
+        assert raw[p:p + 4] == b"PK\x01\x02"
+        if not isdir:
+            raw[p + 8] |= bits & 0xFF
+        n, e, c = struct.unpack("<HHH", raw[p + 28:p + 34])
+        p += 46 + n + e + c
+    return bytes(raw)
+
+
+def write_zip_streamed(entries, comp):
+    """a ZIP written to a pipe (zip - ... | ..., zipfile on an unseekable stream): sizes and CRC follow the data in a data
+    descriptor, general purpose bit 3 is set on every member"""
+    class Sink:
+        def __init__(self):
+            self.data = bytearray()
+
+        def write(self, b):
+            self.data += b
+            return len(b)
+
+        def flush(self):
+            pass
+    sink = Sink()
+    with zipfile.ZipFile(sink, "w", comp) as z:
+        for n, d in entries:
+            z.writestr(n + "/" if d is None else n, b"" if d is None else d)
+    return bytes(sink.data)
+
+
 def write_tar(entries, mode, fmt=tarfile.DEFAULT_FORMAT):
     buf = io.BytesIO()
     with tarfile.open(fileobj=buf, mode=mode, format=fmt) as t:
@@ -175,6 +229,17 @@ LAYOUTS += [("tar-gnu", "a.tar", lambda e: write_tar(e, "w", tarfile.GNU_FORMAT)
             ("7z-lzma2-solid-encoded-header", "a.7z", lambda e: write7z(e, "lzma2", True, encode_header=True)),
             ("7z-copy-folder-per-file-encoded-header", "a.7z", lambda e: write7z(e, "copy", False, encode_header=True)),
             ("7z-lzma-blocks-of-2-encoded-header", "a.7z", lambda e: write7z(e, "lzma", group=2, encode_header=True))]
+
+# ZIP general purpose flag bits other than bit 0 (encrypted) and bit 3 (data descriptor): deflate option bits 1-2
+LAYOUTS += [("zip-deflated-gp-maximum", "a.zip", lambda e: write_zip_gp_bits(e, zipfile.ZIP_DEFLATED, 0x02, 9)),
+            ("zip-deflated-gp-fast", "a.zip", lambda e: write_zip_gp_bits(e, zipfile.ZIP_DEFLATED, 0x04, 2)),
+            ("zip-deflated-gp-superfast", "a.zip", lambda e: write_zip_gp_bits(e, zipfile.ZIP_DEFLATED, 0x06, 1))]
+LAYOUTS += [("zip-deflated-streamed-data-descriptor", "a.zip", lambda e: write_zip_streamed(e, zipfile.ZIP_DEFLATED)),
+            ("zip-stored-streamed-data-descriptor", "a.zip", lambda e: write_zip_streamed(e, zipfile.ZIP_STORED))]
+# LZMA1 coders with tuned lc / lp / pb and a dictionary that is not the preset's
+LAYOUTS += [("7z-lzma-lc4-solid", "a.7z", lambda e: write7z(e, "lzma:lc=4", True)),
+            ("7z-lzma-lc0-lp2-folder-per-file", "a.7z", lambda e: write7z(e, "lzma:lc=0:lp=2", False)),
+            ("7z-lzma-pb0-lp1-dict64k-blocks-of-2", "a.7z", lambda e: write7z(e, "lzma:pb=0:lp=1:dict_size=65536", group=2))]
 
 DOCS = [("a.txt", b"alpha alpha\nline two"), ("sub/b.md", b"# bravo\n\ntext"), ("c.csv", b"x,y\n1,2\n3,4\n"), ("sub/deep/d.json", b'{"k": [1, 2, 3]}'),
         ("e.html", b"<html><body><p>echo</p></body></html>"), ("f.txt", b"foxtrot " * 40)]
@@ -223,6 +288,15 @@ def member_sets():
     yield [("notes.txt", b"first version"), DOCS[0], ("notes.txt", b"second version, longer"), ("sub/b.md", b"# other bravo"), DOCS[1]]
     # absolute member names (tar -P, writestr with a full path): still labelled archive!/member
     yield [("/srv/share/report.txt", b"absolute"), DOCS[0], ("/abs.md", b"# abs")]
+    # path components that are not plain names: a tree packed from the current directory (`tar cf x.tar .`, `zip -r x.zip ./docs`),
+    # '.' inside a path; members below hidden DIRECTORIES and below a nested __MACOSX (only a hidden base name and the
+    # __MACOSX/ prefix of the whole name make a member invisible)
+    yield [("./a1.txt", b"packed from dot"), ("./sub/b1.md", b"# dot sub"), ("docs/./c1.csv", b"x\n1\n"), DOCS[0]]
+    yield [(".config/notes.txt", b"in a hidden dir"), ("docs/.cache/index.html", b"<html><body><p>cached</p></body></html>"),
+           ("export/__MACOSX/r.txt", b"nested macosx"), ("__MACOSX/._a.txt", b"resource fork"), ("__MACOSX/b.txt", b"skipped"), DOCS[1]]
+    # names that CONTAIN two or more consecutive dots without being a '..' path component (ranges, an ellipsis)
+    yield [("minutes 2023..2024.txt", b"range"), ("notes...md", b"# ellipsis"), ("v1..v2/readme.txt", b"dir with dots"), ("draft..final.txt", b"draft"),
+           DOCS[0], ("..two-dots-first.txt", b"hidden by its base name"), ("a..b", None)]
 
 
 def observe(r):
